@@ -207,6 +207,49 @@ def build(seed, thorough):
     add(Item('union'), 'reject', 'union')
     return out
 
+# ---------------------------------------------------------------------------------------------
+# generic items: "the schema derive accepts every struct and enum definition that the serialization
+# derives accept, provided the field types themselves have schemas" (C08), and "every definition the
+# documentation allows still compiles" (C18)
+# ---------------------------------------------------------------------------------------------
+
+GENERIC_PRELUDE = PRELUDE + '''use core::marker::PhantomData;
+use std::borrow::Cow;
+pub trait Tr { type Assoc; }
+impl Tr for u8 { type Assoc = u16; }
+'''
+
+GENERIC_ITEMS = [
+    ('enum-phantom-variant', 'pub enum T<X> { A(PhantomData<X>), B(u8) }'),
+    ('enum-lifetime-unused-in-variant', "pub enum T<'a> { A(Cow<'a, str>), B(u8) }"),
+    ('enum-lifetime-unit-variant', "pub enum T<'a> { Text(Cow<'a, str>), Ping }"),
+    ('struct-phantom-field', 'pub struct T<X> { a: PhantomData<X>, b: u8 }'),
+    ('enum-param-only-through-associated-type', 'pub enum T<K: Tr, V> { A(K::Assoc), B { x: V } }'),
+    ('enum-each-param-in-one-variant', 'pub enum T<K, V> { A(K), B(V), C }'),
+    ('struct-skipped-generic-field', 'pub struct T<K, V>(K, #[borsh(skip)] V);'),
+    ('enum-two-lifetimes-with-bounds', "pub enum T<'a, 'b: 'a, X: 'b + Clone> { A(Cow<'a, str>), B(Cow<'b, [X]>), C }"),
+    ('enum-const-generic', 'pub enum T<X, const N: usize> { A([X; N]), B }'),
+    ('struct-associated-type-field', 'pub struct T<X: Tr> { a: X::Assoc, b: Vec<X> }'),
+    ('enum-skipped-phantom-in-struct-variant', 'pub enum T<X> { A { #[borsh(skip)] x: PhantomData<X>, y: u8 }, B }'),
+    ('enum-where-clause', 'pub enum T<K, V> where K: Ord { A(std::collections::BTreeMap<K, V>), B(Vec<V>) }'),
+    ('enum-nested-generic-struct', 'pub enum T<X> { A(Option<Vec<X>>), B((X, u8)), C }'),
+]
+
+class RawItem:
+    """a hand-written item compiled as given (no model line: the model has no generics)"""
+    def __init__(self, label, body, derives):
+        self.label, self.body, self.derives = label, body, derives
+    def src(self):
+        return GENERIC_PRELUDE + '#[derive(%s)]\n%s\n' % (', '.join(self.derives), self.body)
+
+def generic_controls():
+    """[(label, item with the serialization derives only, item with the schema derive too)]"""
+    out = []
+    for label, body in GENERIC_ITEMS:
+        out.append((label, RawItem(label, body, ['BorshSerialize', 'BorshDeserialize']),
+                    RawItem(label, body, ['BorshSerialize', 'BorshDeserialize', 'BorshSchema'])))
+    return out
+
 def newest(pattern):
     c = sorted(glob.glob(pattern), key=os.path.getmtime)
     return c[-1] if c else None
